@@ -87,6 +87,13 @@ Theorem C08_str_roundtrip src r : Requirement src = RqOk r -> rq_no_gap r -> rq_
   exists r', Requirement (req_str r) = RqOk r' /\ req_eq r r' = true /\ req_str r' = req_str r.
 Proof. exact (str_roundtrip src r). Qed.
 Print Assumptions C08_str_roundtrip.
+(* ... for every constructed requirement, once the marker domain's round-trip theorem (C09: MkRoundP.parsed_marker_roundtrip,
+   statement rq_c09_roundtrip) is supplied *)
+Theorem C08_str_roundtrip_given_C09 : rq_c09_roundtrip ->
+  forall src r, Requirement src = RqOk r -> rq_no_gap r ->
+  exists r', Requirement (req_str r) = RqOk r' /\ req_eq r r' = true /\ req_str r' = req_str r.
+Proof. exact str_roundtrip_given_c09. Qed.
+Print Assumptions C08_str_roundtrip_given_C09.
 Corollary C08_str_roundtrip_no_marker src r : Requirement src = RqOk r -> rq_no_gap r -> q_marker r = None ->
   exists r', Requirement (req_str r) = RqOk r' /\ req_eq r r' = true /\ req_str r' = req_str r.
 Proof. intros H G M. apply (str_roundtrip src r H G). now rewrite M. Qed.
